@@ -130,7 +130,24 @@ def job_layout(job):
         what_free = '%d data codewords (real division; syndromes normalised with linear table distribution)' % dc
     pan = [('%s@%s' % (o.kind, o.where), T.implies(T.and_many(list(o.pc)), o.cond)) for o in I.obligations]
     solver = worker_solver(60000, 'z3-new')
-    syn_, nsolv, fails, unk = discharge(solver, items + pan, eval_search=8)
+    asm = []
+    if mode == 'layout' and any(type(c_) is not int for _, c_ in items):
+        # division is a function: equal blocks (and generators) have equal remainders.  Only needed when an obligation did not
+        # fold syntactically (a change that reuses remainders); keeps the solver from answering with identical blocks.
+        calls = stub.calls
+        for a_ in range(len(calls)):
+            for b_ in range(a_ + 1, len(calls)):
+                ba, bb = calls[a_][0], calls[b_][0]
+                if len(ba) != len(bb) or len(calls[a_][1]) != len(calls[b_][1]):
+                    continue
+                same_in = T.and_many([T.eq(8, x, y) for x, y in zip(ba, bb)])
+                if type(same_in) is int and not same_in:
+                    continue
+                same_out = T.and_many([T.eq(8, T.var('r%d_%d' % (a_, i), 8), T.var('r%d_%d' % (b_, i), 8)) for i in range(256 - (ec + 1), 255)])
+                asm.append(T.implies(same_in, same_out))
+        for x_ in asm:
+            solver.assume(x_)
+    syn_, nsolv, fails, unk = discharge(solver, items + pan, assumptions=asm, eval_search=8)
     res['obligations'] = len(items) + len(pan)
     res['panic_obligations'] = len(pan)
     res['evaluations'] = res['obligations']
